@@ -67,6 +67,68 @@ theorem independent_of_others (cfg : Cfg) (hro : cfg.allowWrite = false) (i : Na
     project i (runSched cfg s sched1) = project i (runSched cfg s sched2) := by
   rw [noninterference_readonly cfg hro i sched1 s st hst, noninterference_readonly cfg hro i sched2 s st hst, hsame]
 
+/-- requests that can change something under the root -/
+def mutating : Req → Bool
+  | .createFile _ | .writeFile _ _ | .deleteFile _ | .mkdir _ | .rmdir _ => true
+  | _ => false
+
+/-- a non-mutating request leaves the world alone, whether writing is enabled or not -/
+theorem read_step_frame (cfg : Cfg) (w : World) (st : State) (r : Req) (h : mutating r = false) :
+    (step cfg w st r).1 = w := by
+  cases r <;> simp [mutating] at h <;> simp [step]
+  all_goals (repeat' split) <;> try rfl
+
+/-- Non-interference from any frame condition: if every request of the schedule satisfies `P` and
+    `P`-requests leave the world unchanged, each connection sees what it would see alone. -/
+theorem noninterference_of_frame (cfg : Cfg) (P : Req → Prop)
+    (hframe : ∀ w st r, P r → (step cfg w st r).1 = w) (i : Nat) :
+    ∀ (sched : List (Nat × Req)) (s : Sys) (st : State), (∀ p ∈ sched, P p.2) → s.sts[i]? = some st →
+      project i (runSched cfg s sched) = runAlone cfg s.w st (project i sched) := by
+  intro sched
+  induction sched with
+  | nil => intro s st _ _; rfl
+  | cons hd rest ih =>
+    intro s st hP hst
+    obtain ⟨j, r⟩ := hd
+    have hPr : P r := hP (j, r) List.mem_cons_self
+    have hPrest : ∀ p ∈ rest, P p.2 := fun p hp => hP p (List.mem_cons_of_mem _ hp)
+    simp only [runSched]
+    by_cases hji : j = i
+    · subst hji
+      have hw : (step cfg s.w st r).1 = s.w := hframe s.w st r hPr
+      have hstep : stepConn cfg s j r = ({ w := (step cfg s.w st r).1, sts := s.sts.set j (step cfg s.w st r).2.1 }, some (step cfg s.w st r).2.2) := by
+        simp [stepConn, hst]
+      rw [hstep]
+      simp only [project, List.filterMap_cons, if_true]
+      have hlen : j < s.sts.length := by
+        rcases Nat.lt_or_ge j s.sts.length with h | h
+        · exact h
+        · rw [List.getElem?_eq_none h] at hst; cases hst
+      have := ih { w := (step cfg s.w st r).1, sts := s.sts.set j (step cfg s.w st r).2.1 } (step cfg s.w st r).2.1
+        hPrest (by simp [List.getElem?_set_self hlen])
+      simp only [project] at this
+      rw [this]
+      simp only [runAlone, hw]
+    · have hother := other_state_untouched cfg s i j r (Ne.symm hji)
+      have hw : (stepConn cfg s j r).1.w = s.w := by
+        unfold stepConn
+        cases hj : s.sts[j]? with
+        | none => rfl
+        | some stj => exact hframe s.w stj r hPr
+      have hrec := ih (stepConn cfg s j r).1 st hPrest (by rw [hother]; exact hst)
+      rw [hw] at hrec
+      cases hout : (stepConn cfg s j r).2 with
+      | none => simp only [project, List.filterMap_cons, hji, if_false] at hrec ⊢; exact hrec
+      | some o => simp only [project, List.filterMap_cons, hji, if_false] at hrec ⊢; exact hrec
+
+/-- **Readers never disturb each other, also on a server with writing enabled**: for any number of
+    connections and any interleaving of open / stat / list / read / dir-size requests, every
+    connection receives exactly the responses it would receive alone. -/
+theorem noninterference_readers (cfg : Cfg) (i : Nat) (sched : List (Nat × Req)) (s : Sys) (st : State)
+    (hread : ∀ p ∈ sched, mutating p.2 = false) (hst : s.sts[i]? = some st) :
+    project i (runSched cfg s sched) = runAlone cfg s.w st (project i sched) :=
+  noninterference_of_frame cfg (fun r => mutating r = false) (read_step_frame cfg) i sched s st hread hst
+
 /-- every new connection starts from the empty state: nothing of an earlier or parallel connection
     (open files, directory cursor, sector size) is inherited -/
 theorem fresh_connection_state : ({} : State).cwd.isNone ∧ ({} : State).ro.isNone ∧ ({} : State).wo.isNone ∧
